@@ -28,7 +28,9 @@ def run(ctx):
         add('witness', w, 1, 0)
     add('empty', PARSE, 1, 0)
     # exhaustive: all 2^16 two-byte prefixes x trailing lengths (trailing bytes vary with the seed)
-    add('prefix', PARSE | STREAM, 16, 0)
+    for j in range(1 if quick else 4):
+        for i in range(16):
+            jobs.append(['prefix', PARSE | STREAM, seed + 7919 * j, i, 16, 0])
     # payload lengths 0..300 and 65530..65540, both header forms, flags
     leafcount = 1 if quick else 2
     add('leaf', TREE_SER, 8, leafcount)
@@ -36,14 +38,14 @@ def run(ctx):
     add('leaf', EL_SHORT, 4, leafcount)
     add('leaf', PARSE | STREAM, 8, leafcount)
     # random nested trees (depth <= 6, <= ~600 bytes): every buffer size, every truncation, every length-field perturbation
-    add('trees', TREE_SER, 16, 1500 * k)
+    add('trees', TREE_SER, 16, 900 * k)
     add('trees', EL_FIT, 8, 3000 * k)
-    add('trees', EL_SHORT, 8, 2000 * k)
-    add('trees', PARSE, 16, 1200 * k)
-    add('trees', STREAM, 16, 1200 * k)
+    add('trees', EL_SHORT, 8, 1200 * k)
+    add('trees', PARSE, 16, 800 * k)
+    add('trees', STREAM, 16, 800 * k)
     add('trees', EDIT, 4, 3000 * k)
     # content totals around 65535/65536/65537 at every depth
-    nbig = 4 if quick else 150
+    nbig = 24 if quick else 300
     add('big', TREE_SER, 16, nbig)
     add('big', EL_FIT, 8, nbig)
     add('big', EL_SHORT, 8, nbig)
@@ -83,7 +85,7 @@ def run(ctx):
     c = ctx.counters
     ctx.require(fin == len(jobs) or ctx.violations or ctx.known_printed, 'all %d driver processes finish (%d did)' % (len(jobs), fin))
     if fin == len(jobs):
-        floors = dict(prefix_inputs=1100000, serialized_exact_buffer_ok=20000, serialized_larger_buffer_ok=100000,
+        floors = dict(prefix_inputs=1116288, serialized_exact_buffer_ok=20000, serialized_larger_buffer_ok=100000,
                       short_buffer_refused=1000000, tlv_expansions_equal=100000, element_expansions_equal=100000,
                       tlv_mistiled_rejected=50000, element_mistiled_rejected=50000, memRead_equal=50000, memReadN_equal=100000,
                       parseBlob_missized_rejected=500000, truncations=500000, length_perturbations=50000, noncanonical_inputs=500,
